@@ -128,8 +128,6 @@ Proof.
   - erewrite kmax_it by eassumption. reflexivity.
   - erewrite kmax_it by eassumption. reflexivity.
   - erewrite kmax_it by eassumption. reflexivity.
-  - erewrite kmax_it by eassumption. reflexivity.
-  - erewrite kmax_it by eassumption. reflexivity.
   - erewrite kmax_fn by eassumption. reflexivity.
 Qed.
 
